@@ -30,6 +30,7 @@ def eof_action(api, eid):
             "  case 1: yypop_buffer_state(%s); vf_eof_did_pop(%s != 0); if (!%s) yyterminate(); break;\n"
             "  case 2: %s break;\n"
             "  case 3: return 2;\n"
+            "  case 4: vf_eof_switch_saved(); break;\n"
             "  default: yyterminate(); } }" % (eid, only, cur, cur, setin))
 
 
